@@ -47,9 +47,10 @@ def qap():
     return dict(init=init, evaluate=ev, oinit=oinit, lower=lb, upper=ub, qi=qi, qo=qo, ov=ov)
 
 
-def make_qap(eng, Q, n, emax, flows_const=None, dist_const=None):
+def make_qap(eng, Q, n, emax, flows_const=None, dist_const=None, in_dtype=None):
+    """in_dtype: the integer type of the arrays the CALLER hands to Instance(distances, flows) (default uint64, what the loader builds)"""
     import numpy as np
-    U64 = core.dtype_of(np.uint64)
+    U64 = core.dtype_of(np.uint64 if in_dtype is None else np.dtype(in_dtype))
     if dist_const is not None:
         D = core.const_array("D", dist_const, dtype=U64, masq=np.ndarray)
         cons = []
@@ -70,11 +71,12 @@ def make_qap(eng, Q, n, emax, flows_const=None, dist_const=None):
     return inst, D, F
 
 
-def real_qap(D, F):
+def real_qap(D, F, in_dtype=None):
     import numpy as np
     from moptipyapps.qap.instance import Instance
     from moptipyapps.qap.objective import QAPObjective
-    inst = Instance(np.array(D, dtype=np.uint64), np.array(F, dtype=np.uint64))
+    dt = np.uint64 if in_dtype is None else np.dtype(in_dtype)
+    inst = Instance(np.array(D, dtype=dt), np.array(F, dtype=dt))
     return inst, QAPObjective(inst)
 
 
@@ -84,7 +86,7 @@ def replay(w):
         return replay_loader(w)
     D, F, x = w["D"], w["F"], w["x"]
     n = len(D)
-    inst, obj = real_qap(D, F)
+    inst, obj = real_qap(D, F, w.get("in_dtype"))
     val = int(obj.evaluate(np.array(x, dtype=np.int64)))
     exp = sum(F[i][j] * D[x[i]][x[j]] for i in range(n) for j in range(n))
     info = dict(value=val, expected=exp, lower=int(obj.lower_bound()), upper=int(obj.upper_bound()), dtype=str(inst.distances.dtype),
@@ -100,7 +102,7 @@ def _viol(eng, n, common, flows_const, perms, site="qap/objective.py + qap/insta
     D = [list(map(int, r)) for r in eng.dist_const] if getattr(eng, "dist_const", None) is not None else [[int(md.get(f"D_{i * n + j}", 0)) for j in range(n)] for i in range(n)]
     F = [list(map(int, r)) for r in flows_const] if flows_const is not None else [[int(md.get(f"F_{i * n + j}", 0)) for j in range(n)] for i in range(n)]
     for x in perms:
-        w = dict(D=D, F=F, x=list(x), label=label)
+        w = dict(D=D, F=F, x=list(x), label=label, in_dtype=getattr(eng, "in_dtype", None))
         try:
             bad, info = replay(w)
         except Exception as ex:
@@ -114,7 +116,7 @@ def _viol(eng, n, common, flows_const, perms, site="qap/objective.py + qap/insta
     return inconclusive(f"model does not replay ({label}): D={D} F={F}", **common)
 
 
-def job_exact(n, emax, check_bounds, flows_const=None, timeout_s=900, dist_const=None):
+def job_exact(n, emax, check_bounds, flows_const=None, timeout_s=900, dist_const=None, in_dtype=None):
     Q = qap()
     perms = list(itertools.permutations(range(n)))
     state = {}
@@ -133,7 +135,7 @@ def job_exact(n, emax, check_bounds, flows_const=None, timeout_s=900, dist_const
         eng.s.add(cond)
 
     def h(eng):
-        inst, D, F = make_qap(eng, Q, n, emax, flows_const, dist_const)
+        inst, D, F = make_qap(eng, Q, n, emax, flows_const, dist_const, in_dtype)
         eng.pending = [(l, c) for l, c in eng.pending if not l.startswith("value fits dtype")]
         eng.flush()
         ub, lb = lift(inst.upper_bound), lift(inst.lower_bound)
@@ -169,6 +171,7 @@ def job_exact(n, emax, check_bounds, flows_const=None, timeout_s=900, dist_const
         return "accepted"
     eng = Engine(timeout_ms=120000, deadline=time.time() + timeout_s)
     eng.dist_const = dist_const
+    eng.in_dtype = in_dtype
     ok = eng.explore(h)
     q, st = util.qstats(state.get("q", []))
     common = dict(paths=eng.paths, queries=dict(sat=eng.n_sat + q["sat"], unsat=eng.n_unsat + q["unsat"], unknown=eng.unknown + q["unknown"]),
@@ -381,6 +384,10 @@ def jobs(tier):
     for k, fl in enumerate(flow_pool(2, seed, 4 if tier == "quick" else 12)):
         js.append(Job(f"instance/n2/flows{k}", job_exact, dict(n=2, emax=10 ** 6, check_bounds=True, flows_const=fl), "objective_and_bounds", 900))
         js.append(Job(f"instance/n2/dists{k}", job_exact, dict(n=2, emax=10 ** 6, check_bounds=True, dist_const=fl), "objective_and_bounds", 900))
+    # matrices handed over in a narrow integer type by the caller (the loader always builds uint64): entries symbolic in the type's range
+    for k, fl in enumerate(flow_pool(2, seed, 2 if tier == "quick" else 6)):
+        js.append(Job(f"instance/n2/flows{k}/uint8", job_exact, dict(n=2, emax=255, check_bounds=True, flows_const=fl, in_dtype="uint8"), "objective_and_bounds", 900))
+        js.append(Job(f"instance/n2/dists{k}/int16", job_exact, dict(n=2, emax=32767, check_bounds=True, dist_const=fl, in_dtype="int16"), "objective_and_bounds", 900))
     for n in (2, 3, 4) + ((5,) if tier == "thorough" else ()):
         js.append(Job(f"kernel/n{n}", job_kernel, dict(n=n), "objective_and_bounds", 900))
     for k, fl in enumerate(flow_pool(3, seed, 3 if tier == "quick" else 12)):
